@@ -331,7 +331,7 @@ def _worker(chunk):
     return out
 
 
-def run_states(at, row_fn, tr, parallel_threshold=40):
+def run_states(at, row_fn, tr, parallel_threshold=6):
     """row_fn(state) -> list of (mode, ok, detail, undecided).  Uses all cores for large tables.
     `at` is an Atoms object (feasibility of each weak order is checked inside the workers)."""
     import multiprocessing as mp
@@ -429,4 +429,4 @@ class TableRun:
         if not self.bad and not self.undecided:
             self.rep.proved(self.rule, self.where, what, "%d abstract cases (weak orders x modes) agree with the spec table%s" % (self.rows, (" (%d unconstrained tie cases skipped)" % self.skipped) if getattr(self, "skipped", 0) else ""), loc=self.loc)
         t = self.rep.extra.setdefault("tables", {})
-        t[self.rule + " " + self.where + " " + what] = {"cases": self.rows, "disagree": self.bad, "undecided": self.undecided, "wall_s": round(time.time() - self.t0, 2)}
+        t["%s %s %s #%d" % (self.rule, self.where, what, len(t))] = {"cases": self.rows, "disagree": self.bad, "undecided": self.undecided, "wall_s": round(time.time() - self.t0, 2)}
